@@ -12,4 +12,5 @@
 
 mod util;
 
+mod c00_probe;
 mod c02_credit;
